@@ -551,3 +551,63 @@ def gen_script(rng, kind, nV, nF, nCorn, nCells, ncalls):
             pool.append(["c2f", w, attr_values(rng, nCorn, mode())] + dd() + [pre(nF)])
     rng.shuffle(pool)
     return pool[:ncalls]
+
+
+# ------------------------------------------------------------------ multi-step scenarios (stale caches)
+PRODUCERS = ["face_area", "angles", "cot", "cw", "defects", "face_normals", "vnormals", "cell_volume"]
+
+
+def gen_move(rng, kind, V, F, C):
+    """new integer coordinates for the same connectivity: an affine map or the displacement of a few vertices,
+    keeping the mesh non-degenerate"""
+    for _ in range(60):
+        V2 = [list(p) for p in V]
+        r = rng.random()
+        if r < 0.35:
+            sc = rng.choice([2, 3])
+            t = [rng.randint(-3, 3) for _ in range(3)]
+            V2 = [[sc * p[i] + t[i] for i in range(3)] for p in V2]
+        elif r < 0.6:   # anisotropic stretch: areas, angles and normals all change
+            k = [rng.choice([1, 2, 3]) for _ in range(3)]
+            V2 = [[k[i] * p[i] for i in range(3)] for p in V2]
+        else:
+            for _j in range(rng.randint(1, 3)):
+                v = rng.randrange(len(V2))
+                V2[v] = [V2[v][i] + rng.randint(-2, 2) for i in range(3)]
+        if V2 == [list(p) for p in V]:
+            continue
+        if C:
+            if all(det3(sub(V2[c[0]], V2[c[3]]), sub(V2[c[1]], V2[c[3]]), sub(V2[c[2]], V2[c[3]])) != 0 for c in C):
+                return V2
+        else:
+            polys_ok = all(len(f) <= 4 or convex_planar([V2[v] for v in f]) for f in F)
+            if polys_ok and nondegenerate_surface(V2, F) and vertex_normals_defined(V2, F):
+                return V2
+    return None
+
+
+def gen_scenario(rng):
+    """(kind, V, F, C, script): persistent computations, then the vertices are moved, then more computations"""
+    for _ in range(50):
+        if rng.random() < 0.15:
+            kind = "vol"
+            V, C = gen_volume(rng)
+            F = None
+        else:
+            kind, V, F = gen_surface(rng, rng.choice(["tiny", "medium"]))
+            C = None
+        V2 = gen_move(rng, kind, V, F, C)
+        if V2 is None:
+            continue
+        nF = len(F) if F else 0
+        nCorn = sum(len(f) for f in F) if F else 0
+        nC = len(C) if C else 0
+        pre = gen_script(rng, kind, len(V), nF, nCorn, nC, 40)
+        pre = [c for c in pre if c[0] in PRODUCERS]
+        for c in pre:
+            c[-2] = True   # persistent
+        rng.shuffle(pre)
+        pre = pre[:rng.randint(1, 4)]
+        post = gen_script(rng, kind, len(V), nF, nCorn, nC, rng.randint(4, 8))
+        return kind, V, F, C, pre + [["move", [[float(x) for x in p] for p in V2]]] + post
+    raise RuntimeError("scenario generator failed")
